@@ -17,6 +17,7 @@ EXPLANATION = (
     "(count) the parser's completeness arithmetic matches the writer's two own positions per action; (scope) "
     "the current-action scoping that decides parentage is paired set/reset (C04.pair); (dispatch) the parser "
     "classifies action vs message by presence of action_type and start vs end by the started status."
+    "  The threaded writer's own rules (C19: unregister before the stop marker is queued, reader leaves only on the marker, a destination failure is contained inside the loop, one delivery per dequeued item) are part of this property as well."
 )
 RULE = "obligation = rule instance bound to an emission site / reader access / referenced rule; non-trivial = dataflow state or CFG paths examined"
 ASSUMPTIONS = [
